@@ -29,6 +29,7 @@ def run(F, X, rep):
     r2(F, X, rep)
     r3(F, X, rep)
     t_id_type(F, X, rep)
+    r4_dispatch_table(F, X, rep)
     w(F, X, rep)
     p(F, X, rep)
 
@@ -317,6 +318,27 @@ def r3(F, X, rep):
     # positive control for the name patterns: the reader's next() exists
     nx = [c for b in F.code_bodies() if "src/cln_plugin/" in b.span.get("f", "") for c in b.calls if c.name in ("tokio_stream::StreamExt::next", "futures::StreamExt::next") and "FramedRead" in c.full]
     rep.anchor(rid, "StreamExt::next on the FramedRead", len(nx), 1)
+
+
+def r4_dispatch_table(F, X, rep):
+    rid = "C17-R4"
+    rep.rule(rid, "every registered hook and rpc method reaches the dispatch table: the builder's `rpcmethods` and `hooks` maps are each moved into it exactly once (a hook that is advertised but not dispatchable ends the reader loop on its first call)")
+    drains = {}
+    for b in F.code_bodies():
+        if "src/cln_plugin/" not in b.span.get("f", ""):
+            continue
+        for c in b.calls:
+            if c.noise or not (c.name.endswith("HashMap::drain") or c.name.endswith("HashMap::into_iter") or c.name.endswith("IntoIterator::into_iter")) or not c.args:
+                continue
+            e = strip(X.operand(b, c.args[0]))
+            for y in walk(e):
+                if y[0] == "field" and canon(y[2] or "").endswith("cln_plugin::Builder") and y[1] in ("rpcmethods", "hooks", "subscriptions"):
+                    drains.setdefault(y[1], set()).add(c.loc)
+    for f in ("rpcmethods", "hooks", "subscriptions"):
+        n = len(drains.get(f, ()))
+        rep.ob(rid, n == 1, "cln_plugin::Builder", "Builder::%s is moved into its dispatch table once" % f, where=sorted(drains.get(f, [""]))[0], how="%d site(s)" % n,
+               detail="" if n == 1 else "Builder::%s is drained at %d sites (%s): what was registered there %s" % (f, n, sorted(drains.get(f, ())), "never becomes dispatchable" if n == 0 else "is taken twice - the second takes nothing"))
+    rep.anchor(rid, "registration maps of the builder that are moved into dispatch tables", len(drains), 3)
 
 
 def t_id_type(F, X, rep):
